@@ -76,6 +76,9 @@ def build_flow(case, cp_root, counter, fault=None):
                 yield t
 
     def f(row):
+        if fault and fault[0] == 'rowfn' and counter.f_rows == fault[1]:
+            # the classic bug in a row function: next() on an exhausted iterator (raises StopIteration)
+            next(iter(()))
         counter.f_rows += 1
         row = dict(row)
         for k, v in row.items():
@@ -230,6 +233,22 @@ def check(case, ctx):
                     raise Violation('checkpoint-committed-although-a-step-failed-while-it-was-written',
                                     {'raising_step': where, 'resource': ri, 'row': pos})
                 subkeys.append('x%s%d%s' % (where, ri, pos))
+    # a row function before the checkpoint that raises StopIteration at its k-th row: the run fails, nothing is committed
+    for k in sorted({0, total // 2, total - 1} & set(range(total))):
+        d = os.path.join(root, 'xrowfn%d' % k)
+        try:
+            run_flow(case, d, fault=('rowfn', k))
+        except ProcessorError:
+            pass
+        except Exception as e:
+            raise Violation('step-exception-not-wrapped', {'type': type(e).__name__})
+        else:
+            raise Violation('failing-step-yields-successful-run', {'where': 'row function raising StopIteration', 'row': k})
+        n_exc += 1
+        if after(d, {'raising_step': 'row function (StopIteration)', 'row': k}):
+            raise Violation('checkpoint-committed-although-a-step-failed-while-it-was-written',
+                            {'raising_step': 'row function (StopIteration)', 'row': k})
+        subkeys.append('xrowfn%d' % k)
     # a step before the checkpoint failing in its own end-of-stream code (after its last resource was passed on)
     d = os.path.join(root, 'xuppkgend')
     try:
@@ -243,6 +262,14 @@ def check(case, ctx):
         raise Violation('checkpoint-committed-although-a-step-failed-while-it-was-written',
                         {'raising_step': 'up', 'resource': 'all', 'row': 'end'})
     subkeys.append('xuppkgend')
+    # a step failing upstream of a checkpoint that is followed by parallelize (run under the scheduler shim of C18, shared
+    # with C04): the checkpoint in between must not be committed
+    from props import c04
+    for mode, two in (('process', True), ('results', False)):
+        px = {'row': 1 + (total % 3), 'exc': 'ValueError', 'N': 1 + (total % 2), 'schedule': [], 'mid': 'checkpoint', 'two': two}
+        if c04.run_parallelize_fault(case, ctx, mode, px, {'fault': 'upstream-of-checkpoint-and-parallelize'})[0]:
+            n_exc += 1
+            subkeys.append('xpar%s' % mode)
     classes = ['resources=%d' % len(pkg), 'rows~%d' % (10 * (total // 10)), 'events~%d' % (10 * (len(events) // 10))]
     return Info(nontrivial=len(subkeys) >= 2, classes=classes, evals=n_runs + n_exc + 2, subkeys=subkeys,
                 extra={'crash_runs': n_runs, 'exception_runs': n_exc, 'io_events_recorded': len(events),
